@@ -120,6 +120,15 @@ def handle (op : String) (args0 : List String) : Option String := do
       match ← fanPoints hex with
       | none => pure "true"
       | some (P, n) => pure (boolStr (fanEmptyOk P n))
+  | "c20.holds.same_as_sequential" => do -- m tris m' tris' : a concurrent result is the same triangle SET as the sequential one
+      let m ← nat? (← args.head?)
+      let a ← takeTris (args.take (1 + 3 * m))
+      let b ← takeTris (args.drop (1 + 3 * m))
+      pure (boolStr (canonTris a == canonTris b))
+  | "c20.holds.input_unchanged" => do -- n pts n' pts' : the caller's slice re-read after the call is bit-identical
+      let (n, hex, rest) ← takePoints args
+      let (n', hex', rest') ← takePoints rest
+      pure (boolStr (n == n' && hex == hex' && rest'.isEmpty))
   | "c20.holds.vertices" => do     -- n pts k out(3k)
       let (_, hex, rest) ← takePoints args
       let k ← nat? (← rest.head?)
